@@ -459,6 +459,21 @@ int main(void){
     printf(" %%d", (ok ? 100 : 0) + (st ? config_setting_type(st) : 99));
     config_destroy(&cf);
   }
+  /* the scanner's \xHH escape for every spelling of two hex digits, with \x and \X: the byte stored (0 = the string ends there) */
+  printf("\nN HEX_ESCAPE");
+  { const char *hd = "0123456789abcdefABCDEF"; int i, j, x;
+    for(x = 0; x < 2; ++x) for(i = 0; i < 22; ++i) for(j = 0; j < 22; ++j){
+      config_t cf; char text[32]; const char *sv = NULL; config_init(&cf);
+      snprintf(text, sizeof text, "s = \"\\%%c%%c%%cZ\";", x ? 'X' : 'x', hd[i], hd[j]);
+      if(config_read_string(&cf, text) && config_lookup_string(&cf, "s", &sv) && sv) printf(" %%d", (int)(unsigned char)sv[0] + (sv[0] ? 1000 * (sv[1] == 'Z') : 0));
+      else printf(" -1");
+      config_destroy(&cf);
+    } }
+  /* config_set_option(o, flag) / config_get_option on the initial option word, for each of the 32 bit positions */
+  printf("\nN OPTION_SET");
+  { int bit, fl; for(bit = 0; bit < 32; ++bit) for(fl = 0; fl <= 1; ++fl){
+      config_t cf; config_init(&cf); config_set_option(&cf, (int)(1u << bit), fl);
+      printf(" %%u", (unsigned)config_get_options(&cf)); config_destroy(&cf); } }
   /* config_set_tab_width / config_set_float_precision over all unsigned short arguments */
   { config_t cf; int w; config_init(&cf);
     printf("\nV TAB_WIDTH");
@@ -544,6 +559,10 @@ def function_tables():
         ('GET_OK', 'getOkTable', 'result of `config_setting_lookup_<k>` on a member of type t holding 1 / 1.0 / "x" / true: index (t*5 + k)*2 + auto, t = 0..8, k = int,int64,float,bool,string')]:
         L.append('/-- %s -/' % doc)
         L.append('def %s : List Bool := [%s]' % (lname, ', '.join('true' if b else 'false' for b in tabs.get(key, []))))
+    L.append('/-- the byte the scanner stores for `\\xHH` / `\\XHH` (+1000 when the rest of the literal follows it): index (x*22 + i)*22 + j over the digit alphabet 0-9a-fA-F; byte 0 ends the C string -/')
+    L.append('def hexEscapeTable : List Int := [%s]' % ', '.join(map(str, tabs.get('HEX_ESCAPE', []))))
+    L.append('/-- `config_get_options` after `config_set_option(1 <<< bit, flag)` on a fresh configuration: index bit*2 + flag -/')
+    L.append('def optionSetTable : List Nat := [%s]' % ', '.join(map(str, tabs.get('OPTION_SET', []))))
     L.append('/-- `config_setting_set_<k>(setting of type t, 1 / 1.0 / "x")`: 100·success + type afterwards, index (t*5 + k)*2 + auto -/')
     L.append('def setResultTable : List Nat := [%s]' % ', '.join(map(str, tabs.get('SET_RESULT', []))))
     for key, lname, doc in [('TAB_WIDTH', 'tabWidthSegs', '`config_set_tab_width(w)` then `config_get_tab_width`, for EVERY unsigned short `w`, as maximal segments (lo, hi, identity?, constant): on lo..hi the result is `w` itself or the constant'),
